@@ -91,15 +91,19 @@ type permJob struct {
 
 func c17Programs(th bool) []*pg.Program {
 	var ps []*pg.Program
-	for _, p := range specialFamily() {
+	for i, p := range specialFamily() {
 		if p.Raw != "" || strings.HasPrefix(p.Fam, "S:shadow=") {
+			continue
+		}
+		// quick: two of the four base programs of every feature (alternating)
+		if !th && i%2 == 1 {
 			continue
 		}
 		ps = append(ps, p)
 	}
 	if pl, err := planFor("C18", "quick"); err == nil {
 		for i, p := range pl.progs {
-			if i%4 == 0 || th {
+			if i%16 == 0 || th {
 				p.Fam = "C18:" + p.Fam
 				ps = append(ps, p)
 			}
@@ -107,7 +111,7 @@ func c17Programs(th bool) []*pg.Program {
 	}
 	if pl, err := planFor("C11", "quick"); err == nil {
 		for i, p := range pl.progs {
-			if i%16 == 0 || (th && i%3 == 0) {
+			if i%48 == 0 || (th && i%3 == 0) {
 				p.Fam = "C11:" + p.Fam
 				ps = append(ps, p)
 			}
@@ -238,6 +242,10 @@ func c17Main(tier, build, repo, cffBin string) {
 					}
 					mu.Unlock()
 					for q := 1; q < famSize(n); q++ {
+						// quick tier, maps with more than 4 keys: reversal, rotation by one, first transposition
+						if !th && n > 4 && q != 1 && q != 2 && q != n+1 {
+							continue
+						}
 						specs = append(specs, fmt.Sprintf("%d:%d", k, q))
 					}
 				}
@@ -390,7 +398,7 @@ func c17Main(tier, build, repo, cffBin string) {
 			"known_findings_hit":            rep.KnownHits,
 			"rule":                          "(a) the tool rebuilt with every generator map range under explorer control: for each program and mode a default run records the sequence of map iterations (key counts), then every single deviation (thorough: pairs at sites with <=3 keys) from sorted order is executed - all n! orders for n<=4, reversal/rotations/adjacent transpositions above - and the output must be byte-identical; distinct_nontrivial = map-iteration sites with >=2 keys; (b) every -file subset x explicit/default output of a 5-file package and every file of the large packages alone vs whole package; (c) two fresh processes per package and mode, token scan",
 		},
-		Assumptions: []string{"process-level nondeterminism other than map iteration order and the random token (e.g. address-dependent behaviour inside go/types) is only sampled by the repeated runs", "maps with more than 4 keys: reversal, rotations and adjacent transpositions instead of all orders"}}
+		Assumptions: []string{"process-level nondeterminism other than map iteration order and the random token (e.g. address-dependent behaviour inside go/types) is only sampled by the repeated runs", "maps with more than 4 keys: reversal, rotations and adjacent transpositions instead of all orders (quick tier: reversal, rotation by one and the first transposition only)"}}
 	if err := mc.WriteEvidence(ev); err != nil {
 		mc.ToolError("evidence: %v", err)
 	}
